@@ -66,8 +66,9 @@ impl Story {
         match specific_variable_name {
             Some(specific_variable_name) => {
                 if let Some(v) = self.variable_observers.get_mut(specific_variable_name) {
-                    let index = v.iter().position(|x| Rc::ptr_eq(x, observer)).unwrap();
-                    v.remove(index);
+                    if let Some(index) = v.iter().position(|x| Rc::ptr_eq(x, observer)) {
+                        v.remove(index);
+                    }
 
                     if v.is_empty() {
                         self.variable_observers.remove(specific_variable_name);
@@ -79,8 +80,9 @@ impl Story {
                 let mut keys_to_remove = Vec::new();
 
                 for (k, v) in self.variable_observers.iter_mut() {
-                    let index = v.iter().position(|x| Rc::ptr_eq(x, observer)).unwrap();
-                    v.remove(index);
+                    if let Some(index) = v.iter().position(|x| Rc::ptr_eq(x, observer)) {
+                        v.remove(index);
+                    }
 
                     if v.is_empty() {
                         keys_to_remove.push(k.to_string());
